@@ -2,7 +2,7 @@
 # sanitizers, and links the simulator + harness + scenarios against it.
 REPO ?= /repo
 B := build
-NNGB := $(B)/nng-sim
+NNGB := $(B)/nng-$(shell echo $(REPO) | md5sum | cut -c1-8)
 SAN := -fsanitize=address,undefined -fno-sanitize-recover=all -fno-sanitize=nonnull-attribute
 NNG_CFLAGS := -O1 -g -fno-omit-frame-pointer $(SAN) -DNDEBUG
 CXX := g++
@@ -43,7 +43,7 @@ $(B)/obj/%.o: %.c
 	@mkdir -p $(dir $@)
 	$(CC) $(CFLAGS) -c $< -o $@
 
-$(B)/nngsim: $(OBJS) libnng sim/wraps.txt
+$(B)/nngsim: $(OBJS) libnng sim/wraps.txt Makefile
 	$(CXX) $(SAN) -o $@ $(OBJS) $(NNGB)/libnng.a $(WRAPFLAGS) -lpthread
 
 clean:
